@@ -434,8 +434,12 @@ func c11PersisterLoads(c *vk.Ctx) {
 				}
 				st := state.NewState(fl)
 				ca := cache.NewCache()
-				if capacity > 0 {
-					ca = ca.WithCacheSize(capacity)
+				capJ := capacity
+				if r.Chance(1, 3) {
+					capJ = uint32(r.Range(0, 3)) * 700 // sessions created under other capacity settings (0 = unlimited)
+				}
+				if capJ > 0 {
+					ca = ca.WithCacheSize(capJ)
 				}
 				depth := r.Range(0, 5)
 				st.Down("root")
@@ -507,8 +511,8 @@ func c11PersisterLoads(c *vk.Ctx) {
 						// an empty state of the flag size of the session just saved (State.CloneEmpty)
 						es := app.SnapState(state.NewState(s.st.BitSize - 8))
 						ecache := cache.NewCache()
-						if capacity > 0 {
-							ecache = ecache.WithCacheSize(capacity)
+						if s.ca.Size > 0 {
+							ecache = ecache.WithCacheSize(s.ca.Size) // the flushed cache keeps the capacity of the session just saved
 						}
 						ec := app.SnapCache(ecache)
 						c.Count("flushing_saves", 1)
